@@ -66,3 +66,4 @@ fn vk_ema_clone() {
     let _ = c.next(kani::any::<f64>());
     assert!(e.current.to_bits() == cur && e.is_new == fresh);
 }
+
